@@ -226,7 +226,8 @@ func index(item reflect.Value, indices ...reflect.Value) (reflect.Value, error) 
 			if x := v.MapIndex(index); x.IsValid() {
 				v = x
 			} else {
-				v = reflect.Zero(v.Type().Elem())
+				// a missing key is nil, like an out-of-range index above (the zero Object would convert to an empty map)
+				return reflect.ValueOf(Nil{}), nil
 			}
 		case reflect.Invalid:
 			// the loop holds invariant: v.IsValid()
